@@ -166,6 +166,15 @@ def gen(seed, tier):
     for ty, vals in (("i64", [2 ** 53 + 1, -(2 ** 53) - 1, 2 ** 62 + 1, 2 ** 63 - 1, -(2 ** 63), 0, 7]), ("u64", [2 ** 53 + 1, 2 ** 64 - 2, 2 ** 63 + 1, 0, 7])):
         out.append(f"ew1@{ty} s{hexs('nan_to_num')} {arr([len(vals)], vals)}")
         out.append(f"ew1@{ty} s{hexs('positive')} {arr([len(vals)], vals)}")
+    # integer element types at arguments where the function's value is a whole number (powers of ten / two / e-free):
+    # the result is that number, not its neighbour (seeded change C05m: log10 as ln(x)/ln(10) gave 2 for 1000)
+    tens = [10 ** k for k in range(0, 19)]
+    twos = [2 ** k for k in range(0, 63, 3)]
+    for ty, cap in (("i64", 2 ** 63), ("i32", 2 ** 31), ("u8", 256), ("u64", 2 ** 64)):
+        for op, vals in (("log10", tens), ("log2", twos), ("sqrt", [k * k for k in (0, 1, 2, 3, 10, 1000, 46340)]), ("cbrt", [k ** 3 for k in (0, 1, 2, 3, 10, 100, 1000)]),
+                         ("log", [1]), ("exp2", [0, 1, 2, 5, 7]), ("square", [0, 1, 2, 11, 15])):
+            v = [x for x in vals if x < cap]
+            out.append(f"ew1@{ty} s{hexs(op)} {arr([len(v)], v)}")
     for op in ZUNARY:
         for sh in sh3[::2]:
             es = [rng.randint(-50, 50) for _ in range(prod(sh))]
